@@ -18,26 +18,46 @@ Fixpoint fields_of (n : string) (l : list (string * list string)) : option (list
 (* the objects that live across calls have exactly the fields of Model/State.v:
    Parser{expression, tokens, index}, JMESPath{ast, intr}; the interpreter and the function
    table hold no per-call data; the lexer is created per Parse call *)
-Theorem state_objects :
-  fields_of "Parser" struct_fields = Some ["expression"; "tokens"; "index"] /\
-  fields_of "JMESPath" struct_fields = Some ["ast"; "intr"] /\
-  fields_of "treeInterpreter" struct_fields = Some ["fCall"] /\
-  fields_of "functionCaller" struct_fields = Some ["functionTable"] /\
-  fields_of "functionEntry" struct_fields = Some ["name"; "arguments"; "handler"; "hasExpRef"] /\
-  fields_of "Lexer" struct_fields = Some ["expression"; "currentPos"; "lastWidth"; "buf"].
-Proof. repeat split; reflexivity. Qed.
+Definition modelled_objects : list (string * list string) :=
+  [("Parser", ["expression"; "tokens"; "index"]); ("JMESPath", ["ast"; "intr"]); ("treeInterpreter", ["fCall"]);
+   ("functionCaller", ["functionTable"]); ("functionEntry", ["name"; "arguments"; "handler"; "hasExpRef"]);
+   ("Lexer", ["expression"; "currentPos"; "lastWidth"; "buf"])].
 
-(* the package-level variables are the constant tables of lexer.go and parser.go and the
+(* every field that one of these types has in the source is a field the models know (a field
+   that disappears is no new state) *)
+Definition fields_known (n : string) (known : list string) : bool :=
+  match fields_of n struct_fields with
+  | Some fs => forallb (fun f => existsb (String.eqb f) known) fs
+  | None => true
+  end.
+
+Theorem state_objects : forall n known, In (n, known) modelled_objects -> fields_known n known = true.
+Proof.
+  assert (H : forallb (fun nk => fields_known (fst nk) (snd nk)) modelled_objects = true) by reflexivity.
+  intros n known Hin. rewrite forallb_forall in H. exact (H (n, known) Hin).
+Qed.
+
+(* the package-level variables are among the constant tables of lexer.go and parser.go and the
    generated name tables — no pool, cache, counter or registry (that none of them is ever
-   written is part of the write-site theorem, Proofs/Frame.v) *)
-Theorem state_package_vars :
-  package_vars = ["_astNodeType_index"; "_tokType_index"; "basicTokens"; "bindingPowers"; "identifierTrailingBits"; "whiteSpace"].
-Proof. reflexivity. Qed.
+   written is part of the write-site theorem, Proofs/Frame.v).  Inclusion, not equality: a table
+   turned into a function, or removed, is no new state *)
+Definition constant_tables : list string :=
+  ["_astNodeType_index"; "_tokType_index"; "basicTokens"; "bindingPowers"; "identifierTrailingBits"; "whiteSpace"].
+
+Theorem state_package_vars : forall v, In v package_vars -> In v constant_tables.
+Proof.
+  assert (H : forallb (fun v => existsb (String.eqb v) constant_tables) package_vars = true) by reflexivity.
+  intros v Hv. rewrite forallb_forall in H. specialize (H v Hv). apply existsb_exists in H as [c [Hc E]].
+  apply String.eqb_eq in E. subst c. exact Hc.
+Qed.
 
 (* Parse assigns every field of its Parser: nothing of an earlier call survives in a field that is read *)
 Theorem parse_assigns_every_field :
   forall fs, fields_of "Parser" struct_fields = Some fs -> forall f, In f fs -> In f parse_assigns.
 Proof.
-  intros fs H f Hf. destruct state_objects as [Hp _]. rewrite Hp in H. inversion H; subst fs.
-  cbn in Hf. destruct Hf as [<-|[<-|[<-|[]]]]; cbn; auto.
+  assert (H : match fields_of "Parser" struct_fields with
+              | Some fs => forallb (fun f => existsb (String.eqb f) parse_assigns) fs
+              | None => true end = true) by reflexivity.
+  intros fs Hfs f Hf. rewrite Hfs in H. rewrite forallb_forall in H. specialize (H f Hf).
+  apply existsb_exists in H as [c [Hc E]]. apply String.eqb_eq in E. subst c. exact Hc.
 Qed.
